@@ -221,6 +221,8 @@ func (p *Parser) parse(dict *Dictionary, parsedFiles map[string]struct{}, f File
 					}
 				}
 
+				parsedFiles[incFileName] = struct{}{}
+				defer delete(parsedFiles, incFileName)
 				if err := p.parse(dict, parsedFiles, incFile); err != nil {
 					return err
 				}
